@@ -124,6 +124,16 @@ def run_case(seed, tier, rec, st):
         W = fam.get(wname)
         t = ("dc", wname)
         ref = Ref(fam)
+        if rng.random() < 0.5:
+            # history: codec objects of ANOTHER format for the same class exist already
+            try:
+                from mashumaro.codecs.basic import BasicDecoder, BasicEncoder
+                BasicEncoder(W), BasicDecoder(W)
+                other_f = _FORMATS[rng.choice([n for n in _FORMATS if n != fname])]
+                other_f["E"](W), other_f["D"](W)
+                rec.count("history_codecs_of_other_formats_first")
+            except Exception:
+                pass
         try:
             enc, dec = F["E"](W), F["D"](W)
         except Exception as e:
